@@ -522,15 +522,15 @@ def _check_block(c, it, blk, reg, tag, otag, j):
     exp = getattr(c, "expect_origin", None)
     if exp is None:
         return
-    if blk.origin is None:
-        _oblige(it, f"{otag}:element-comes-from-the-right-source", False, detail="provenance lost (block was computed, not moved)")
-        return
     ctx.push()
     try:
         loc = tuple(ctx.fresh_int(f"l{i}", lo=0) for i in range(len(reg)))
         for l, r in zip(loc, reg):
             ctx.assume(l < r[1])
-        if ctx.feasible():
+        if ctx.feasible() and blk.origin is None:
+            # (an empty region has no element to account for: nothing to show)
+            _oblige(it, f"{otag}:element-comes-from-the-right-source", False, detail="provenance lost (block was computed, not moved)")
+        elif ctx.feasible():
             g = tuple(r[0] + l for l, r in zip(loc, reg))
             got = blk.origin(loc)
             want = exp(j, g)
